@@ -45,4 +45,12 @@ func init() {
 		"(1) the gRPC unit table equals the spec's {n,u,m,S,M,H}, is strictly increasing, and the parser's lookup map is filled only from it; (2) digit limits agree (gRPC: encoder never emits 9 digits, parser accepts 99999999 and rejects 100000000 and negatives; Connect: writer <= reader = 10) and every unit whose maximal product overflows int64 is guarded exactly at MaxInt64/unit with a no-timeout result; "+
 			"(3) both encoders use a truncating integer quotient of time.Until(deadline), set the header only under ctx.Deadline()'s ok and only when the value fits, never a sliced digit string; (4) each SetTimeout returns the request context without a header, invalid_argument on every parse error, and WithTimeout(request.Context(), parsed) otherwise; ServeHTTP defers cancel, passes that context on and never runs user code with an invalid timeout.",
 		"the <=1 ms / <0.01% bound as an arithmetic fact over all durations, the deadline a running handler observes, strconv's acceptance of a leading '+' (noted, not alarmed).")
+
+	prop("C11", "Headers and trailers set by one side are observed by the other",
+		[]string{"multi-value", "carrier-pairing", "user-visible-same-map", "header-pairing", "header-canonical", "bin-header"},
+		"(1) every loop over an http.Header transfers whole value slices with append/Add semantics (no Set in an inner loop, no vals[0], no Get), so multiple values and their order survive and existing destination values are kept; "+
+			"(2) each protocol's trailer carrier is written and read with the same constant/struct/flag (Trailer- prefix, end-of-stream JSON struct, http.TrailerPrefix vs Response.Trailer, gRPC-Web trailer block); "+
+			"(3) ResponseHeader()/ResponseTrailer() return the map fields that get populated; (4) every protocol header constant a side reads is written by its peer under the same unary/streaming configuration; "+
+			"(5) direct header map indexes use canonical constants and JSON-decoded metadata is re-keyed canonically; (6) the binary-header helpers use one base64 alphabet, unpadded on encode, padding-tolerant on decode.",
+		"that net/http delivers what was written (value sanitising, HTTP/2 trailers), all multimaps x kinds x outcomes, the base64 round trip itself (stdlib).")
 }
